@@ -516,6 +516,36 @@ def run(cx):
             raise vlib.Inconclusive("%d histories could not be applied / reproduced, e.g. leg %s id %s: %s" % (
                 len(tl.harness_fail), leg, hid, json.dumps(o)[:400]))
 
+    # ------------------------------------------------------------------ iteration under mutation, code-point strings
+    # Containers.tla's "iter" is a snapshot of the pairs; what a LOOP sees while its body changes the list is specified
+    # by Lang.tla (the list is read anew at every step): Grammar!IterMuts and Grammar!StrProgs, judged by LangCheck
+    import langlib
+    lang = cx.go_build("lang")
+    im_cases, im_path = langlib.run_family(cx, lang, "itermuts", 0)
+    im_by_id = {c["id"]: c for c in im_cases}
+    im_mism, im_unknown = langlib.tlc_conform(cx, im_cases, prefix="itermuts")
+    if im_mism:
+        ids = ",".join(str(i) for i, _ in im_mism[:100])
+        p = cx.run([lang, "rerun", "-in", im_path, "-ids", ids])
+        again = {}
+        for ln in p.stdout.decode().splitlines():
+            if ln.strip():
+                dd = json.loads(ln)
+                again[dd["id"]] = dd["obs"]
+        strip = lambda o: {k: v for k, v in (o or {}).items() if k not in ("msg", "msgcps")}
+        nrep = 0
+        for i, specjs in im_mism[:100]:
+            c = im_by_id[i]
+            if strip(again.get(i)) != strip(c["obs"]):
+                cx.notes.append("itermuts case %d: observation not reproduced" % i)
+                continue
+            nrep += 1
+            if nrep <= 8:
+                cx.violation("a loop over a container / a string operation does not see what the reference model says: src=%r observed=%s specified=%s" % (
+                    c["src"][:300], json.dumps(strip(c["obs"]))[:300], specjs[:300]),
+                    {"leg": "itermuts", "src": c["src"], "observed": c["obs"], "specified": specjs})
+    cx.cover["iteration_under_mutation_and_string_programs"] = len(im_cases) - len(im_unknown)
+
     # ------------------------------------------------------------------ evidence
     for sm in samples:
         cx.sample(sm)
